@@ -49,6 +49,14 @@ func placementCases(r *core.Run, base []feCase) []feCase {
 		}
 		if r.Thorough() {
 			max = 0
+			if strings.HasPrefix(c.name, "random") {
+				max = 100 // 5 000 random schemas: bounded per schema, the controller holds every text and parsed File
+			}
+		}
+		if strings.HasPrefix(c.name, "big/") {
+			// ≈ 2 000 insertion points x 5 forms x 14 KB of text, each with its parsed File held in
+			// memory: unbounded, the 96 shifted schemas of the thorough tier alone need > 60 GB
+			max = 40
 		}
 		for _, pl := range schema.Placements(c.text, rng, max) {
 			pl := pl
@@ -135,7 +143,13 @@ func perturbCases(r *core.Run, base []feCase) []feCase {
 		}
 		if strings.HasPrefix(c.name, "random") {
 			nr++
-			if !r.Thorough() && (nr/len(schema.Layouts))%4 != 0 {
+			// every 4th random schema (every 8th of the ten times larger thorough corpus: the texts and
+			// their parsed Files are all held in memory, see DESIGN section 7)
+			every := 4
+			if r.Thorough() {
+				every = 8
+			}
+			if (nr/len(schema.Layouts))%every != 0 {
 				continue
 			}
 		}
